@@ -7,6 +7,13 @@ import vlib
 
 
 def main():
+    # every temporary file of this run (harness, commands under test - obiuniq leaves its chunk directories behind when it is
+    # killed -, generated inputs) goes to one private directory which is removed when the check ends
+    import tempfile, shutil, atexit
+    tmpd = tempfile.mkdtemp(prefix="verif_check_")
+    os.environ["TMPDIR"] = tmpd
+    tempfile.tempdir = tmpd
+    atexit.register(shutil.rmtree, tmpd, True)
     ap = argparse.ArgumentParser()
     ap.add_argument("pid")
     ap.add_argument("--tier", default=None)
